@@ -226,6 +226,18 @@ pub fn small_scope_titles(p: &mut ProbeReport, code: &str, which: &str, maxlen: 
     }
 }
 
+/// the reference answer of C10/C20: a newly constructed store with the same language, records, limit and markers,
+/// built and searched in a FRESH THREAD, so that it shares no thread-local scratch state (distance matrix, cost
+/// vectors, Jaccard buffers, match vectors) with the store under test
+pub fn fresh_thread_search(lang: &str, recs: &[(usize, String, usize)], limit: usize, markers: &(String, String), q: &str) -> Vec<(usize, String)> {
+    let (lang, recs, markers, q) = (lang.to_string(), recs.to_vec(), markers.clone(), q.to_string());
+    std::thread::spawn(move || {
+        let mut st = Scn { lang, recs, limit }.build();
+        st.highlight_with((&markers.0, &markers.1));
+        search_results(&st, &q)
+    }).join().unwrap_or_default()
+}
+
 // ---------------- C01: never panic ----------------
 fn p01(p: &mut ProbeReport, r: &mut Rng, budget: usize) {
     // witnesses of the fixed defect D1 first (regression corpus), then adversarial stores
@@ -316,6 +328,32 @@ fn p02(p: &mut ProbeReport, r: &mut Rng, budget: usize) {
 // ---------------- C03: any prefix of any title word finds the record ----------------
 fn p03(p: &mut ProbeReport, r: &mut Rng, budget: usize) {
     for code in LANGS.iter() { small_scope_titles(p, code, "C03", if budget > 20000 { 3 } else { 2 }); }
+    // inflected words (stem shorter than the word): every prefix, in particular the one of exactly the stem length
+    for code in LANGS.iter().filter(|c| **c != "none") {
+        let v = vocab(code);
+        let lang = make_lang(code);
+        let mut done = 0;
+        let mut tries = 0;
+        while done < (if budget > 20000 { 400 } else { 60 }) && tries < 20000 {
+            tries += 1;
+            let w = v.word(r);
+            let t = tokenize_record(&w, &lang);
+            if t.words.len() != 1 || t.words[0].stem >= t.words[0].len() { continue; }
+            done += 1;
+            let scn = Scn { lang: code.to_string(), recs: vec![(1, w.clone(), 1)], limit: 1 };
+            let st = scn.build();
+            let cs = wchars(&t, 0);
+            for k in 1..=cs.len() {
+                if !cs[k - 1].is_alphanumeric() { continue; }
+                let q: String = cs[..k].iter().collect();
+                if !one_word_query(&lang, &q, &cs[..k], true) { continue; }
+                p.eval(&format!("infl|{}|{}|{}", code, w, q), true);
+                if !search_results(&st, &q).iter().any(|h| h.0 == 1) {
+                    p.fail(format!("prefix {:?} (stem length {}) of the inflected word {:?} does not find it [{}]", q, t.words[0].stem, w, code), scn.case("c03-inflected", vec![Op::Search(q.clone())]));
+                }
+            }
+        }
+    }
     let budget = budget + p.evaluations;
     let mut i = 0;
     while p.evaluations < budget {
@@ -721,6 +759,7 @@ fn p10(p: &mut ProbeReport, r: &mut Rng, budget: usize) {
             Op::Add(0, 1, "a d".into()),      // rating patched below: higher than everything so far
             Op::Add(0, 0, "ad".into()),       // rating patched below: lower than everything so far
             Op::Clear, Op::Limit(1), Op::Limit(3), Op::Limit(10), Op::Search("".into()), Op::Search("a".into()),
+            Op::Markers("[".into(), "}".into()), Op::Markers("{".into(), "}".into()),
         ];
         let maxlen = if budget > 20000 { 6 } else { 5 };
         let mut idx = vec![0usize; 0];
@@ -730,7 +769,7 @@ fn p10(p: &mut ProbeReport, r: &mut Rng, budget: usize) {
             let mut k = idx.len();
             loop { if k == 0 { idx = vec![0; idx.len() + 1]; break; } k -= 1; if idx[k] + 1 < alphabet.len() { idx[k] += 1; for j in k + 1..idx.len() { idx[j] = 0; } break; } }
             if idx.len() > maxlen { break; }
-            if !idx.iter().any(|a| *a >= 6) { continue; }
+            if !idx.iter().any(|a| *a == 6 || *a == 7) { continue; }
             total += 1;
             let mut st = new_store("none", core::DEFAULT_LIMIT);
             let mut recs: Vec<(usize, String, usize)> = vec![(1, "ab".into(), 500), (2, "a c".into(), 400)];
@@ -738,6 +777,7 @@ fn p10(p: &mut ProbeReport, r: &mut Rng, budget: usize) {
             let mut ops: Vec<Op> = vec![Op::New, Op::Add(1, 500, "ab".into()), Op::Add(2, 400, "a c".into())];
             let mut limit = core::DEFAULT_LIMIT;
             let (mut hi, mut lo, mut next) = (600usize, 300usize, 3usize);
+            let mut xmarkers = ("[".to_string(), "]".to_string());
             for a in &idx {
                 let op = match &alphabet[*a] {
                     Op::Add(_, 1, t) => { hi += 10; next += 1; Op::Add(next, hi, t.clone()) }
@@ -749,9 +789,15 @@ fn p10(p: &mut ProbeReport, r: &mut Rng, budget: usize) {
                     Op::Add(id, rating, t) => { add_to(&mut st, *id, t, *rating); recs.push((*id, t.clone(), *rating)); }
                     Op::Clear => { st.clear(); recs.clear(); }
                     Op::Limit(n) => { st.limit = *n; limit = *n; }
+                    Op::Markers(l, rr) => { st.highlight_with((l, rr)); xmarkers = (l.clone(), rr.clone()); }
                     Op::Search(q) => {
                         let got = search_results(&st, q);
-                        let want = search_results(&Scn { lang: "none".into(), recs: recs.clone(), limit }.build(), q);
+                        // reference: a freshly built store — in a fresh thread for one sequence in eight (thread spawns are
+                        // what dominates the cost of this enumeration), on this thread otherwise
+                        let want = if total % 8 == 0 { fresh_thread_search("none", &recs, limit, &xmarkers, q) } else {
+                            let mut fresh = Scn { lang: "none".into(), recs: recs.clone(), limit }.build();
+                            fresh.highlight_with((&xmarkers.0, &xmarkers.1));
+                            search_results(&fresh, q) };
                         p.eval(&format!("x|{:?}|{}", idx, q), !recs.is_empty());
                         if got != want { p.fail(format!("after the operation sequence search {:?} returns {:?} but a freshly built store returns {:?}", q, got, want), Case { name: "c10-exhaustive".into(), lang: "none".into(), stream: "probe", ops: ops.clone() }); }
                     }
@@ -781,11 +827,15 @@ fn p10(p: &mut ProbeReport, r: &mut Rng, budget: usize) {
                 Op::Limit(n) => { st.limit = *n; limit = *n; }
                 Op::Markers(l, rr) => { st.highlight_with((l, rr)); markers = (l.clone(), rr.clone()); }
                 Op::Search(q) => {
+                    // another store of a different language, holding the same records, is searched with the same query
+                    // first: thread-local scratch state must not carry over
+                    if k % 3 == 0 {
+                        let other = if code == "none" { "en" } else { "none" };
+                        let _ = search_results(&Scn { lang: other.into(), recs: recs.clone(), limit: 10 }.build(), q);
+                    }
                     let got = search_results(&st, q);
                     let again = search_results(&st, q);
-                    let mut fresh = Scn { lang: code.into(), recs: recs.clone(), limit }.build();
-                    fresh.highlight_with((&markers.0, &markers.1));
-                    let want = search_results(&fresh, q);
+                    let want = fresh_thread_search(code, &recs, limit, &markers, q);
                     p.eval(&format!("{}|{}|{}", code, k, q), !recs.is_empty());
                     let prefix = Case { name: "c10".into(), lang: code.into(), stream: "probe", ops: case.ops[..=k].to_vec() };
                     if got != want { p.fail(format!("after {} operations search {:?} returns {:?} but a freshly built store returns {:?}", k, q, got, want), prefix.clone()); }
@@ -1198,39 +1248,87 @@ fn p19(p: &mut ProbeReport, r: &mut Rng, budget: usize) {
 }
 
 // ---------------- C20: registry isolation ----------------
+/// run one registry case on the real top-level API, comparing every live id's buffer after every operation with an
+/// independent stand-alone store driven with that id's own history; returns false on the first discrepancy
+fn reg_case_against_shadows(p: &mut ProbeReport, case: &Case, tag: &str) -> bool {
+    // per id: (language, records, limit, markers, hits of the last search)
+    let mut shadow: BTreeMap<usize, (String, Vec<(usize, String, usize)>, usize, (String, String), Vec<(usize, String)>)> = BTreeMap::new();
+    let mut live: Vec<usize> = vec![];
+    let mut ok = true;
+    let res = guarded(|| {
+        for (k, op) in case.ops.iter().enumerate() {
+            match op {
+                Op::RCreate(id, l) => { core::create_store(*id, make_lang(l)); live.push(*id); shadow.insert(*id, (l.clone(), vec![], core::DEFAULT_LIMIT, ("[".to_string(), "]".to_string()), vec![])); }
+                Op::RDestroy(id) => { core::destroy_store(*id); live.retain(|x| x != id); shadow.remove(id); }
+                Op::RMarkers(id, l, rr) => { core::highlight_with(*id, (l, rr)); shadow.get_mut(id).unwrap().3 = (l.clone(), rr.clone()); }
+                Op::RLimit(id, n) => { core::set_limit(*id, *n); shadow.get_mut(id).unwrap().2 = *n; }
+                Op::RAdd(id, rid, rating, t) => { core::add_record(*id, *rid, t, *rating); shadow.get_mut(id).unwrap().1.push((*rid, t.clone(), *rating)); }
+                Op::RSearch(id, q) => { core::run_search(*id, q); let e = shadow.get_mut(id).unwrap(); e.4 = fresh_thread_search(&e.0, &e.1, e.2, &e.3, q); }
+                _ => {}
+            }
+            for id in &live {
+                let got: Vec<(usize, String)> = core::using_results(*id, |rs| rs.iter().map(|x| (x.id, x.title.clone())).collect());
+                let want = &shadow[id].4;
+                p.eval(&format!("{}|{}|{}", tag, k, id), !want.is_empty());
+                if &got != want { p.fail(format!("after op #{} ({}) result buffer of store {} is {:?}, an independent store's last search gives {:?}", k, op.line(), id, got, want), Case { ops: case.ops[..=k].to_vec(), ..case.clone() }); ok = false; return; }
+                let titles = crate::bridge::get_result_titles(*id);
+                let parts: Vec<&str> = titles.split('\0').collect();
+                if parts.len() != want.len() + 1 || parts.iter().zip(want.iter()).any(|(a, b)| *a != b.1) { p.fail(format!("NUL framing of store {} does not split back into its titles: {:?}", id, titles), Case { ops: case.ops[..=k].to_vec(), ..case.clone() }); ok = false; return; }
+                let ids_b = crate::bridge::get_result_ids(*id);
+                if ids_b != want.iter().map(|x| x.0).collect::<Vec<_>>() { p.fail(format!("get_result_ids of store {} is {:?}, expected the ids of {:?}", id, ids_b, want), Case { ops: case.ops[..=k].to_vec(), ..case.clone() }); ok = false; return; }
+            }
+        }
+    });
+    for id in live.drain(..) { let _ = guarded(|| core::destroy_store(id)); }
+    if let Err(e) = res { p.fail(format!("registry operation panicked on a valid call sequence: {}", e), case.clone()); ok = false; }
+    ok
+}
+
 fn p20(p: &mut ProbeReport, r: &mut Rng, budget: usize) {
+    // small-scope exhaustive: every VALID call sequence up to a fixed length over a small alphabet on two ids
+    // (an English store and a store without language holding the same word)
+    {
+        let (a, b) = (900001usize, 900002usize);
+        let alphabet: Vec<Op> = vec![
+            Op::RCreate(a, "en".into()), Op::RCreate(b, "none".into()), Op::RDestroy(a),
+            Op::RAdd(a, 1, 5, "pink".into()), Op::RAdd(b, 2, 6, "pink".into()), Op::RAdd(a, 3, 7, "metal punk".into()),
+            Op::RLimit(a, 25), Op::RLimit(a, 1), Op::RMarkers(a, "{".into(), "}".into()),
+            Op::RSearch(a, "pank".into()), Op::RSearch(b, "pank".into()), Op::RSearch(a, "".into()),
+            Op::RSearch(b, "pink".into()),   // a second query word: scratch state keyed by the last word gets rebuilt
+        ];
+        // from scratch up to 4 (thorough 5) calls; and up to 3 (thorough 4) calls after a fixed prelude in which both
+        // stores exist and hold the same word (indices 0, 1, 3, 4 of the alphabet)
+        let (len_scratch, len_prelude) = if budget > 20000 { (5, 8) } else { (4, 7) };
+        let mut stack: Vec<Vec<usize>> = vec![vec![], vec![0, 1, 3, 4]];
+        let mut total = 0usize;
+        while let Some(seq) = stack.pop() {
+            let maxlen = if seq.len() >= 4 && seq[..4] == [0, 1, 3, 4] { len_prelude } else { len_scratch };
+            if seq.len() >= maxlen { continue; }
+            for (ai, op) in alphabet.iter().enumerate() {
+                // validity of appending `op`
+                let mut live_a = false; let mut live_b = false;
+                for x in &seq { match &alphabet[*x] { Op::RCreate(id, _) => { if *id == a { live_a = true } else { live_b = true } } Op::RDestroy(_) => live_a = false, _ => {} } }
+                let valid = match op { Op::RCreate(id, _) => if *id == a { !live_a } else { !live_b }, Op::RDestroy(_) => live_a,
+                    Op::RAdd(id, ..) | Op::RSearch(id, _) | Op::RLimit(id, _) | Op::RMarkers(id, ..) => if *id == a { live_a } else { live_b }, _ => true };
+                if !valid { continue; }
+                let mut next = seq.clone(); next.push(ai);
+                // only run sequences that end in a search or a settings change after some search (others add nothing new)
+                let has_search = next.iter().any(|x| matches!(alphabet[*x], Op::RSearch(..)));
+                if has_search && !matches!(alphabet[ai], Op::RCreate(..)) {
+                    total += 1;
+                    let case = Case { name: "c20-exhaustive".into(), lang: "none".into(), stream: "probe", ops: next.iter().map(|x| alphabet[*x].clone()).collect() };
+                    if !reg_case_against_shadows(p, &case, "x") { if p.failures.len() >= 4 { stack.clear(); break; } }
+                }
+                stack.push(next);
+            }
+        }
+        p.notes.insert("exhaustive_sequences".into(), total);
+    }
+    let budget = budget + p.evaluations;
     let mut round = 0;
     while p.evaluations < budget {
         round += 1;
         let cases = reg_cases(r, 1);
-        let case = &cases[0];
-        let mut shadow: BTreeMap<usize, (Store, Vec<(usize, String)>)> = BTreeMap::new();
-        let mut live: Vec<usize> = vec![];
-        let res = guarded(|| {
-            for (k, op) in case.ops.iter().enumerate() {
-                match op {
-                    Op::RCreate(id, l) => { core::create_store(*id, make_lang(l)); live.push(*id); shadow.insert(*id, (new_store(l, core::DEFAULT_LIMIT), vec![])); }
-                    Op::RDestroy(id) => { core::destroy_store(*id); live.retain(|x| x != id); shadow.remove(id); }
-                    Op::RMarkers(id, l, rr) => { core::highlight_with(*id, (l, rr)); shadow.get_mut(id).unwrap().0.highlight_with((l, rr)); }
-                    Op::RLimit(id, n) => { core::set_limit(*id, *n); shadow.get_mut(id).unwrap().0.limit = *n; }
-                    Op::RAdd(id, rid, rating, t) => { core::add_record(*id, *rid, t, *rating); add_to(&mut shadow.get_mut(id).unwrap().0, *rid, t, *rating); }
-                    Op::RSearch(id, q) => { core::run_search(*id, q); let e = shadow.get_mut(id).unwrap(); e.1 = search_results(&e.0, q); }
-                    _ => {}
-                }
-                // after every operation every live id's buffer equals its own last search on an independent store
-                for id in &live {
-                    let got: Vec<(usize, String)> = core::using_results(*id, |rs| rs.iter().map(|x| (x.id, x.title.clone())).collect());
-                    let want = &shadow[id].1;
-                    p.eval(&format!("{}|{}|{}", round, k, id), !want.is_empty());
-                    if &got != want { p.fail(format!("after op #{} ({}) result buffer of store {} is {:?}, an independent store's last search gives {:?}", k, op.line(), id, got, want), Case { ops: case.ops[..=k].to_vec(), ..case.clone() }); return; }
-                    // bridge framing
-                    let titles = crate::bridge::get_result_titles(*id);
-                    let parts: Vec<&str> = titles.split('\0').collect();
-                    if parts.len() != want.len() + 1 || parts.iter().zip(want.iter()).any(|(a, b)| *a != b.1) { p.fail(format!("NUL framing of store {} does not split back into its titles: {:?}", id, titles), Case { ops: case.ops[..=k].to_vec(), ..case.clone() }); return; }
-                }
-            }
-        });
-        for id in live.drain(..) { let _ = guarded(|| core::destroy_store(id)); }
-        if let Err(e) = res { p.fail(format!("registry operation panicked on a valid call sequence: {}", e), case.clone()); }
+        if !reg_case_against_shadows(p, &cases[0], &format!("{}", round)) && p.failures.len() >= 4 { break; }
     }
 }
